@@ -23,6 +23,7 @@ def run(chk):
         'name, source tables identical before/after, target canonical with '
         'exact counts, target\'s held references unchanged. '
         'distinct_nontrivial = distinct (n, source order, target order, route)')
+    chk.mc('MC_Ops2', 'MC_Let2.cfg')     # _copy_bdd within one manager (CopyRename) refines RenameC
     tasks = []
     tid = 11000000
     pairs3 = [(a, b) for a in ORDERS3 for b in ORDERS3]
